@@ -35,12 +35,57 @@ struct P {
     using tuple_t = covfie::array::array<T, N>;
     static std::string name()
     {
-        return std::string("nd_map/T=") + (std::is_same_v<T, size_t> ? "size_t" : std::is_same_v<T, unsigned> ? "unsigned" : "int") + "/N=" +
+        return std::string("nd_map/T=") + (std::is_same_v<T, size_t> ? "size_t" : std::is_same_v<T, unsigned> ? "unsigned" : std::is_same_v<T, uint8_t> ? "uint8" : std::is_same_v<T, uint16_t> ? "uint16" : "int") + "/N=" +
                std::to_string(N);
+    }
+    // a box far too large to enumerate: the callback must be invoked (first with the all-zero tuple);
+    // the enumeration is cut short by throwing out of the callback
+    static Verdict run_huge(const Case & c)
+    {
+        tuple_t s;
+        for (size_t k = 0; k < N; ++k) {
+            s[k] = static_cast<T>(c.ext[k]);
+        }
+        struct Stop {};
+        bool called = false, zero = true;
+        try {
+            covfie::utility::nd_map<tuple_t>(
+                [&](tuple_t t) {
+                    called = true;
+                    for (size_t k = 0; k < N; ++k) {
+                        zero = zero && t[k] == T(0);
+                    }
+                    throw Stop{};
+                },
+                s
+            );
+        } catch (const Stop &) {
+        }
+        Hasher h;
+        h.vec(c.ext).pod(uint8_t(1));
+        label("huge box: first callback only");
+        record(name(), true, h.h, [&] { return c.to_json(); });
+        if (!called) {
+            return std::string("the callback was never invoked for a non-empty box");
+        }
+        if (!zero) {
+            return std::string("the first tuple passed to the callback is not the all-zero tuple");
+        }
+        return std::nullopt;
     }
     static Verdict run(const Case & c)
     {
         tuple_t s;
+        {
+            // boxes beyond 2^22 cells are only probed for their first callback
+            long double vol = 1;
+            for (auto e : c.ext) {
+                vol *= (long double)e;
+            }
+            if (vol > 4194304.0L) {
+                return run_huge(c);
+            }
+        }
         uint64_t cells = 1;
         bool all_equal = true, has0 = false, has1 = false;
         for (size_t k = 0; k < N; ++k) {
@@ -123,6 +168,25 @@ struct P {
         static const uint64_t Bq[] = {0, 6, 5, 4, 3, 3}, Bt[] = {0, 40, 14, 8, 6, 4};
         exhaustive(tier(Bq[N], Bt[N]));
         rc_campaign<Case>(name(), tier(400, 6000), 100, gen_case(N), run);
+        if (N >= 2) {
+            // volumes that are multiples of 2^bits(T) (a product computed in T wraps to 0) and other huge boxes
+            const unsigned bits = 8 * sizeof(T) - (std::is_signed_v<T> ? 1 : 0);
+            for (unsigned a = 1; a < bits; ++a) {
+                for (unsigned b : {bits - a, bits - a + 1 > bits - 1 ? bits - 1 : bits - a + 1}) {
+                    if (b == 0 || b >= bits) {
+                        continue;
+                    }
+                    Case c;
+                    c.ext.assign(N, 1);
+                    c.ext[0] = uint64_t(1) << a;
+                    c.ext[N - 1] = uint64_t(1) << b;
+                    if (N >= 3) {
+                        c.ext[1] = 3;
+                    }
+                    run_explicit(name(), c, run);
+                }
+            }
+        }
     }
     static void reg()
     {
@@ -141,6 +205,10 @@ void register_all()
     P<int, 3>::reg();
     P<unsigned, 4>::reg();
     P<int, 5>::reg();
+    P<uint8_t, 2>::reg();
+    P<uint8_t, 3>::reg();
+    P<uint16_t, 2>::reg();
+    P<uint16_t, 4>::reg();
 }
 }   // namespace
 VF_MAIN(register_all)
